@@ -173,7 +173,10 @@ def cmd_scratch(name, checks, tier='quick'):
                                               time.time() - t0), flush=True)
             for l in lines[:4]:
                 print('   ', l[:160], flush=True)
-            meta['detected_by']['%s %s' % (c, tier)] = dict(
+            key = '%s %s' % (c, tier)
+            if os.environ.get('VERIF_SEED', '1') != '1':
+                key += ' seed=' + os.environ['VERIF_SEED']
+            meta['detected_by'][key] = dict(
                 verdict=verdict, buckets=[l.strip() for l in lines
                                           if 'bucket' in l][:5])
     finally:
